@@ -592,4 +592,96 @@ Section WideProof.
           assert (HRk : len R = 1024 * 2 ^ a) by lia.
           specialize (Hexr a HRk HDa). rewrite Hexr. lia.
   Qed.
+
+  (* ---- compress_subtree_to_parent_node -------------------------------------------------- *)
+  Lemma condense_loop_spec : forall fuel ts t,
+    Forall wf_tree ts -> Cond ts t ->
+    2 <= N.of_nat (length ts) -> N.of_nat (length ts) <= 2 * 2 ^ N.of_nat fuel ->
+    N.of_nat (length ts) <= max_degree_or_2 p ->
+    exists ta tb, condense_loop fuel p (map tcv ts) K F = Ok [tcv ta; tcv tb] /\
+                  t = Node ta tb /\ wf_tree ta /\ wf_tree tb.
+  Proof.
+    destruct degree_facts as (j & Hdj & Hpc & Hd1 & j2 & HD & Hj2 & HDmax & j3 & Hm2 & Hj3 & Hdle).
+    destruct (pow2_even_N j3 Hj3) as (q & Hq & Hq1). rewrite <- Hm2 in Hq.
+    induction fuel as [|fuel IH]; intros ts t Hwf HC Hlo Hhi Hmax.
+    - change (2 ^ N.of_nat 0) with 1 in Hhi.
+      destruct ts as [|ta [|tb [|? ?]]]; cbn [length] in *; try lia.
+      cbn [condense_loop map length]. change (N.of_nat 2 <=? 2) with true. cbn iota.
+      exists ta, tb. split; [reflexivity|].
+      inversion Hwf as [|? ? Ha H']; subst. inversion H' as [|? ? Hb _]; subst.
+      split; [|auto]. symmetry. apply (Cond_iter [ta; tb] t 1%nat); [exact HC|reflexivity].
+    - cbn [condense_loop]. rewrite map_length.
+      destruct (N.of_nat (length ts) <=? 2) eqn:E.
+      + destruct ts as [|ta [|tb [|? ?]]]; cbn [length] in *; try lia.
+        exists ta, tb. split; [reflexivity|].
+        inversion Hwf as [|? ? Ha H']; subst. inversion H' as [|? ? Hb _]; subst.
+        split; [|auto]. symmetry. apply (Cond_iter [ta; tb] t 1%nat); [exact HC|reflexivity].
+      + rewrite cpp_spec by (try assumption; lia). cbn [bind].
+        rewrite Nat2N.inj_succ, N.pow_succ_r' in Hhi.
+        assert (Hlp : N.of_nat (length (pairT ts)) = (N.of_nat (length ts) + 1) / 2).
+        { rewrite pairT_length, Nat2N.inj_div, Nat2N.inj_add. reflexivity. }
+        apply IH.
+        * apply pairT_wf, Hwf.
+        * apply Cond_pairT; [exact HC|lia].
+        * lia.
+        * lia.
+        * lia.
+  Qed.
+
+  Lemma to_parent_node_spec input ctr :
+    1024 < len input -> len input < 2 ^ 64 -> ctr + chunks (len input) < 2 ^ 64 ->
+    exists ta tb, compress_subtree_to_parent_node p input K ctr F = Ok (tcv ta ++ tcv tb) /\
+                  spec_tree wide_fuel ctr input = Node ta tb /\ wf_tree ta /\ wf_tree tb.
+  Proof.
+    intros Hlo H64 Hctr.
+    destruct degree_facts as (j & Hdj & Hpc & Hd1 & j2 & HD & Hj2 & HDmax & j3 & Hm2 & Hj3 & Hdle).
+    unfold compress_subtree_to_parent_node. unfold nlen. fold (len input). change rs_CHUNK_LEN with 1024.
+    replace (1024 <? len input) with true by lia. cbn [check bind].
+    destruct (wide_spec wide_fuel input ctr (max_degree_or_2 p)) as (ts & Hrun & Hwf & HC & Hn & Hn2 & _); try lia.
+    { change (N.of_nat wide_fuel) with 64. rewrite two64 in H64.
+      change (1024 * 2 ^ 64) with 18889465931478580854784. lia. }
+    rewrite Hrun. cbn [bind]. rewrite map_length.
+    assert (Hc2 : 2 <= chunks (len input)) by (unfold chunks; lia).
+    specialize (Hn2 Hc2).
+    replace (2 <=? N.of_nat (length ts)) with true by lia. cbn [check bind].
+    destruct (condense_loop_spec 8 ts _ Hwf HC) as (ta & tb & Hloop & Ht & Hwa & Hwb); try lia.
+    { change (2 * 2 ^ N.of_nat 8) with 512. pose proof (ok_max_le p POK). unfold max_degree_or_2 in *. lia. }
+    rewrite Hloop. cbn [bind]. exists ta, tb. auto.
+  Qed.
+
+  (* ---- hash_all_at_once ------------------------------------------------------------------ *)
+  Theorem hash_all_at_once_spec input :
+    len input < 2 ^ 64 ->
+    hash_all_at_once p input K F = Ok (subtree_output c8 tree_height K F 0 input).
+  Proof.
+    intros H64. unfold hash_all_at_once. unfold nlen. fold (len input). change rs_CHUNK_LEN with 1024.
+    destruct (len input <=? 1024) eqn:E.
+    - destruct (cs_update_spec c8 p Hcip Hc8len K F 0 HK (cs_new K 0 F) [] input) as (cs' & Hupd & HT).
+      { apply (Tight_new c8 p Hcip Hc8len K F 0 HK). }
+      { cbn [app]. lia. }
+      rewrite Hupd. cbn [bind]. cbn [app] in HT.
+      rewrite (cs_output_spec c8 p Hcip Hc8len K F 0 HK cs' input HT).
+      rewrite tree_height_S, subtree_output_unfold, E. reflexivity.
+    - destruct (to_parent_node_spec input 0) as (ta & tb & Hrun & Ht & Hwa & Hwb); try lia.
+      { rewrite two64 in *. unfold chunks. lia. }
+      rewrite Hrun. cbn [bind]. rewrite subtree_output_tree.
+      change tree_height with wide_fuel. rewrite Ht. reflexivity.
+  Qed.
+
+  Lemma subtree_output_root_wf input : len input < 2 ^ 64 ->
+    wf_output (subtree_output c8 tree_height K F 0 input) /\ o_ctr (subtree_output c8 tree_height K F 0 input) = 0.
+  Proof.
+    intros H64. destruct (len input <=? 1024) eqn:E.
+    - rewrite tree_height_S, subtree_output_unfold, E.
+      split; [apply chunk_output_wf; lia|].
+      unfold chunk_output.
+      set (nb := if len input =? 0 then 0%nat else N.to_nat ((len input - 1) / 64)).
+      rewrite (chunk_go_cvfold c8 p Hcip Hc8len K F 0 HK nb 16); [reflexivity| | |];
+        unfold nb; destruct (len input =? 0) eqn:E0; lia.
+    - destruct (to_parent_node_spec input 0) as (ta & tb & Hrun & Ht & Hwa & Hwb); try lia.
+      { rewrite two64 in *. unfold chunks. lia. }
+      rewrite subtree_output_tree. change tree_height with wide_fuel. rewrite Ht. cbn [tree_out].
+      split; [|reflexivity]. split; [exact HK|].
+      cbn [parent_output o_block]. rewrite app_length, !tcv_length by assumption. reflexivity.
+  Qed.
 End WideProof.
